@@ -694,12 +694,13 @@ func lemma_parseFrame_trans(p *Parser) {
 //@   ensures [node@C01,C08,C15] isType[*ast.CallExpression](result) && !isNil(result) && eq(result.(*ast.CallExpression).Token, old(p.CurrentToken)) && result.(*ast.CallExpression).Function == left
 
 //@ func (p *Parser) ParseMemberExpression(left)
-//@   props C11 C16 C02 C01 C13 C05 C03
+//@   props C11 C16 C02 C01 C13 C05 C03 C12
 //@   use parseFrame ctxStable exprResult infixResult viaSlot errorSites atToken
 //@   rank 45
 //@   ensures [wf@C11] implies(len(p.errors) == len(old(p.errors)) && !isNil(left), !isNil(result.(*ast.MemberExpression).Object) && !isNil(result.(*ast.MemberExpression).Property))
-//@   ensures [operand.level@C02,C03,C05] ncalls("(*Parser).NextToken") == 1 && ncalls("slotExprFn") == 1 && callOrder("(*Parser).NextToken", 0, "slotExprFn", 0) && callArg[int]("slotExprFn", 0, 1) == MEMBER && callArg[*Parser]("slotExprFn", 0, 0) == p
-//@   ensures [node@C01,C08,C15] isType[*ast.MemberExpression](result) && !isNil(result) && eq(result.(*ast.MemberExpression).Token, old(p.CurrentToken)) && result.(*ast.MemberExpression).Object == left && !result.(*ast.MemberExpression).Computed && result.(*ast.MemberExpression).Property == callResult[ast.Expression]("slotExprFn", 0)
+//@   ensures [demands@C12] ncalls("(*Parser).ExpectToken") == 1 && callArg[token.Type]("(*Parser).ExpectToken", 0, 1) == token.IDENT && implies(len(p.errors) == len(old(p.errors)), callResult[bool]("(*Parser).ExpectToken", 0))
+//@   ensures [operand.level@C02,C03,C05] implies(!isNil(result), ncalls("(*Parser).ExpectToken") == 1 && ncalls("slotExprFn") == 1 && callOrder("(*Parser).ExpectToken", 0, "slotExprFn", 0) && callArg[int]("slotExprFn", 0, 1) == MEMBER && callArg[*Parser]("slotExprFn", 0, 0) == p)
+//@   ensures [node@C01,C08,C15] implies(!isNil(result), isType[*ast.MemberExpression](result) && eq(result.(*ast.MemberExpression).Token, old(p.CurrentToken)) && result.(*ast.MemberExpression).Object == left && !result.(*ast.MemberExpression).Computed && result.(*ast.MemberExpression).Property == callResult[ast.Expression]("slotExprFn", 0))
 
 //@ func (p *Parser) ParseComputedMemberExpression(left)
 //@   props C11 C16 C02 C01 C13 C12
